@@ -237,3 +237,14 @@ class UsesEmb(Task):
     def run(self, emb, w) -> int:
         RUNS.append(self.fullname)
         return emb
+
+
+class StrLoc(Task):
+    """a str-typed parameter (placeholders keep their un-substituted text in the key) and a non-persisted one"""
+
+    class Meta:
+        parameters = [Parameter('s', dtype=str, default='x'), Parameter('workers', default=1, ignore_persistence=True)]
+
+    def run(self, s, workers) -> str:
+        RUNS.append(self.fullname)
+        return f'{s}/{workers}'
